@@ -131,10 +131,13 @@ def _binop(op, l, r):
     return None
 
 
-def edges_under(fn, env):
+def edges_under(fn, env, defs=False):
     """edge filter: branches whose condition is decided by env only follow the
-    decided side"""
+    decided side. defs=True also looks through single-definition locals (only sound when what they are defined from does
+    not change in the function, e.g. sizes read from a graph)"""
     al = fn.aliases()
+    if defs:
+        al = dict(fn.defs(), **al)
     dec = {}
     for bid, b in fn.blocks.items():
         c = effective_cond(b)
